@@ -559,6 +559,7 @@ namespace lab
         int nStates{0};
         bool startIsAStart{false}, allInBounds{true}, verticesValid{true}, endInGoal{false}, pairsRecheckOk{true};
         double endDist{0};
+        double endDistMax{0};     // distance to the farthest goal state (several goal states), else = endDist
         double maxInvalidRun{0};  // longest stretch (in state-space distance) spent in invalid space
         double length{0};
     };
@@ -601,6 +602,10 @@ namespace lab
             f.endDist = gr->distanceGoal(last);
             f.endInGoal = f.endDist <= gr->getThreshold();
         }
+        f.endDistMax = f.endDist;
+        if (auto *gss = dynamic_cast<const ob::GoalStates *>(pd.getGoal().get()))
+            for (std::size_t i = 0; i < gss->getStateCount(); ++i)
+                f.endDistMax = std::max(f.endDistMax, sp->distance(last, gss->getState(i)));
         // dense re-validation along StateSpace::interpolate at a tenth of the resolution
         ob::State *tmp = sp->allocState();
         const double step = pr.resolutionLength / 10.0;
